@@ -1567,6 +1567,9 @@ class Interp:
             return base.vs[int(e["name"])]
         if isinstance(base, Mat) and e["name"] == "data":
             return base
+        if isinstance(base, Mat) and e["name"] == "0" and base.shape == ("1", "1"):
+            # ArrayStorage of a 1x1 matrix: [[element]]
+            return Tup([Tup([Sc(base.p)])])
         self.unsupported("field %s of %r" % (e["name"], base), e)
 
     def ev_index(self, e, env):
